@@ -2,7 +2,7 @@
    exp enters as a universally quantified function E with explicit premises
    (E respects ==, E(-t)*E(t) = 1, E > 0); everything else is closed. *)
 From Coq Require Import String ZArith List Bool QArith Lia.
-From HD Require Import Base.Val C06_Model C06_Proofs C06_Proofs_Fold C06_Proofs_E2E C06_Proofs_Series C06_Proofs_Layout.
+From HD Require Import Base.Val C06_Model C06_Proofs C06_Proofs_Fold C06_Proofs_E2E C06_Proofs_Series C06_Proofs_Layout C06_Proofs_History.
 Import ListNotations.
 Open Scope Z_scope.
 
@@ -493,3 +493,68 @@ Print Assumptions C06_lut_own_bytes_refuted.
 Example C06_nonvacuous_lut_layout : na_valid be_view /\ na_values be_view = [300; 65000].
 Proof. exact be_view_ok. Qed.
 Print Assumptions C06_nonvacuous_lut_layout.
+
+(* ---- histories: one object asked several times ------------------------------------------------ *)
+(* An image object (or the datasets of one series) holds the stored values in PixelData and, once
+   .pixel_array was accessed, in a cache from which every later read is fed.  For EVERY history
+   (any sequence of get_frame / get_frames / get_volume / get_total_pixel_matrix / get_stored_frame
+   reads in any output dtypes and of .pixel_array accesses, from a fresh object):
+   the result of each operation is the result of that operation alone on a fresh object holding the
+   stored values (no read depends on what was read before), and at the end PixelData and whatever
+   the reads are fed from still are the stored values (reading changes nothing). *)
+Theorem C06_history_independent : forall E ds fl rsel vsel ymin ymax frames ops,
+  let r := hrun (image_read E ds fl rsel vsel ymin ymax) vz_list2 (frames, None) ops in
+  fst r = map (fresh_result (image_read E ds fl rsel vsel ymin ymax) vz_list2 frames) ops /\
+  hsource (snd r) = frames /\ fst (snd r) = frames.
+Proof. intros. exact (hrun_fresh _ _ frames ops). Qed.
+Print Assumptions C06_history_independent.
+
+(* the same for get_volume_from_series called repeatedly on the same datasets *)
+Theorem C06_series_history_independent : forall E fl rsel vsel ymin ymax dss px ops,
+  let r := hrun (series_read E fl rsel vsel ymin ymax dss) vz_list2 (px, None) ops in
+  fst r = map (fresh_result (series_read E fl rsel vsel ymin ymax dss) vz_list2 px) ops /\
+  hsource (snd r) = px /\ fst (snd r) = px.
+Proof. intros. exact (hrun_fresh _ _ px ops). Qed.
+Print Assumptions C06_series_history_independent.
+
+(* the last operation of a history returns the same whatever preceded it *)
+Theorem C06_history_last_independent : forall E ds fl rsel vsel ymin ymax frames ops1 ops2 h,
+  let rd := image_read E ds fl rsel vsel ymin ymax in
+  last (fst (hrun rd vz_list2 (frames, None) (ops1 ++ [h]))) (fresh_result rd vz_list2 frames h) =
+  last (fst (hrun rd vz_list2 (frames, None) (ops2 ++ [h]))) (fresh_result rd vz_list2 frames h).
+Proof. intros. exact (hrun_last_independent _ _ frames ops1 ops2 h). Qed.
+Print Assumptions C06_history_last_independent.
+
+(* THE property sentence inside a history: whatever was read from the object before, a frame that
+   get_frame returns (floating point output dtype) equals - value by value - the STORED values passed
+   through the stages found for that frame *)
+Theorem C06_history_get_frame_staged : forall E, exp_like E ->
+  forall ds fl rsel vsel ymin ymax frames ops k odt fi ys,
+  d_float_in ds = false -> is_float odt = true ->
+  nth_error ops k = Some (HRead (IFrame false odt fi)) ->
+  nth_error (fst (hrun (image_read E ds fl rsel vsel ymin ymax) vz_list2 (frames, None) ops)) k =
+    Some (vq_list ys) ->
+  exists u fd xs,
+    gate fl (d_ctype ds) = Ok u /\ (ymin < ymax)%Q /\
+    discover u (f_pres fl) ds rsel vsel fi = Ok fd /\
+    frame_at frames fi = Ok xs /\
+    match fd_rwvm fd with
+    | Some r => Forall2 (rwvm_value r) xs ys
+    | None => fd_guards fd ->
+        Forall2 (fun x y => (y == staged E (stage_mod fd) (stage_voi fd) (fd_invert fd) ymin ymax
+                                         (stored_min ds) (stored_max ds) x)%Q) xs ys
+    end.
+Proof. intros E (H1 & H2 & H3). exact (history_get_frame_staged E H1 H2 H3). Qed.
+Print Assumptions C06_history_get_frame_staged.
+
+(* non-vacuous: signed 12-bit CT values, slope 1 / intercept -1024, read as int16, .pixel_array,
+   int16 again, float64, get_stored_frame: -1024 applied once each time, stored values intact *)
+Example C06_nonvacuous_history :
+  run_history [] hist_ds hist_fl (SIdx 0) (SIdx 0) 0 1 [[0; 100; -5]]
+    [HRead (IFrame false (DT KI 16) 0); HTouch; HRead (IFrame false (DT KI 16) 0);
+     HRead (IFrame false (DT KF 64) 0); HRead (IStored 0)] =
+  VL [vq_list [(-1024)%Q; (-924)%Q; (-1029)%Q]; vz_list2 [[0; 100; -5]];
+      vq_list [(-1024)%Q; (-924)%Q; (-1029)%Q]; vq_list [(-1024)%Q; (-924)%Q; (-1029)%Q];
+      vz_list [0; 100; -5]].
+Proof. exact history_nonvacuous. Qed.
+Print Assumptions C06_nonvacuous_history.
